@@ -1087,6 +1087,24 @@ impl TextSelectionOperator {
         }
     }
 
+    /// Is this the negated form of the operator?
+    pub fn negated(&self) -> bool {
+        match self {
+            Self::Equals { negate, .. }
+            | Self::Overlaps { negate, .. }
+            | Self::Embeds { negate, .. }
+            | Self::Embedded { negate, .. }
+            | Self::Before { negate, .. }
+            | Self::After { negate, .. }
+            | Self::Precedes { negate, .. }
+            | Self::Succeeds { negate, .. }
+            | Self::SameBegin { negate, .. }
+            | Self::SameEnd { negate, .. }
+            | Self::InSet { negate, .. }
+            | Self::SameRange { negate, .. } => *negate,
+        }
+    }
+
     pub fn toggle_negate(&self) -> Self {
         match self {
             Self::Equals { all, negate } => Self::Equals {
@@ -1394,7 +1412,8 @@ impl TestTextSelection for TextSelectionSet {
         resource: &TextResource,
     ) -> bool {
         if self.is_empty() {
-            return false;
+            //no relation holds for an empty set, so each negated relation does
+            return operator.negated();
         }
         match operator {
             TextSelectionOperator::Equals { negate: false, .. } => {
@@ -1547,7 +1566,8 @@ impl TestTextSelection for TextSelectionSet {
         resource: &TextResource,
     ) -> bool {
         if self.is_empty() {
-            return false;
+            //no relation holds for an empty set, so each negated relation does
+            return operator.negated();
         }
         match operator {
             TextSelectionOperator::Equals { negate: false, .. } => {
